@@ -274,12 +274,33 @@ func vfDumpHex(i *ircserver.IRCServer) string {
 	return hex.EncodeToString([]byte(ircserver.VerifDump(i)))
 }
 
-func vfBatchDigest(msgs []outputstream.Message) string {
+func vfBatchDigest(msgs []outputstream.Message, idx uint64) string {
+	return vfShort([]byte(vfBatchText(msgs, idx)))
+}
+
+// vfAliveAfter[idx] = ids of the sessions {id,0} that exist right after entry idx in the PLAIN replay of the
+// case (filled by the plain replay, which runs first).  Recipient sets are projected to it: a services link that
+// has quit stays in IRCServer.serverSessions (and so in InterestingFor) until the next save+load — nobody can fetch
+// messages for a session that no longer exists (DESIGN.md D13, IRCFORMAT.md E1).
+var vfAliveAfter = map[uint64]map[uint64]bool{}
+
+func vfAliveSet(srv *ircserver.IRCServer) map[uint64]bool {
+	res := map[uint64]bool{}
+	for id := range srv.GetSessions() {
+		if id.Reply == 0 {
+			res[id.Id] = true
+		}
+	}
+	return res
+}
+
+func vfBatchText(msgs []outputstream.Message, idx uint64) string {
+	alive, project := vfAliveAfter[idx]
 	var buf bytes.Buffer
 	for _, m := range msgs {
 		var ids []uint64
 		for id, ok := range m.InterestingFor {
-			if ok {
+			if ok && (!project || alive[id]) {
 				ids = append(ids, id)
 			}
 		}
@@ -293,7 +314,7 @@ func vfBatchDigest(msgs []outputstream.Message) string {
 		}
 		fmt.Fprintf(&buf, "%d.%d %q %v\n", m.Id.Id, m.Id.Reply, data, ids)
 	}
-	return vfShort(buf.Bytes())
+	return buf.String()
 }
 
 // ---------------------------------------------------------------- snapshot sinks
@@ -628,10 +649,13 @@ func (w *vfWorld) dump() string {
 		stored = append(stored, tok)
 	}
 	it.Release()
-	var outs []string
+	var outs, douts []string
 	for _, e := range w.entries {
 		if msgs, ok := outputStream.Get(robust.Id{Id: e.idx}); ok {
-			outs = append(outs, strconv.FormatUint(e.idx, 10)+"="+vfBatchDigest(msgs))
+			outs = append(outs, strconv.FormatUint(e.idx, 10)+"="+vfBatchDigest(msgs, e.idx))
+			if vfFullDumps {
+				douts = append(douts, strconv.FormatUint(e.idx, 10)+"="+hex.EncodeToString([]byte(vfBatchText(msgs, e.idx))))
+			}
 		}
 	}
 	var keys []uint64
@@ -654,7 +678,7 @@ func (w *vfWorld) dump() string {
 	}
 	extra := ""
 	if vfFullDumps {
-		extra = " dsrv=" + vfDumpHex(ircServer)
+		extra = " dsrv=" + vfDumpHex(ircServer) + " douts=" + vfList(douts)
 		if w.lastSnapDump != "" {
 			extra += " dsnap=" + w.lastSnapDump
 			w.lastSnapDump = ""
@@ -670,6 +694,8 @@ func (w *vfWorld) dump() string {
 // zero FSM with a private output stream; returns per element the state digest after it and the digest
 // of its output batch ("-" if none).
 var vfLastReplayDumps []string
+var vfRecordAlive bool
+var vfLastReplayOuts = map[uint64]string{}
 
 type vfTok struct {
 	e     *vfEntry
@@ -691,6 +717,7 @@ func vfReplay(dir string, toks []vfTok) (states []string, outs []string, srv *ir
 	pf := &FSM{}
 	seen := map[uint64]bool{}
 	vfLastReplayDumps = nil
+	vfLastReplayOuts = map[uint64]string{}
 	if vfFullDumps {
 		vfLastReplayDumps = append(vfLastReplayDumps, vfDumpHex(srv))
 	}
@@ -714,12 +741,18 @@ func vfReplay(dir string, toks []vfTok) (states []string, outs []string, srv *ir
 			m.Type = robust.MessageOfDeath
 		}
 		pf.applyRobustMessage(&m, srv, o)
+		if vfRecordAlive {
+			vfAliveAfter[t.e.idx] = vfAliveSet(srv)
+		}
 		if vfFullDumps {
 			vfLastReplayDumps = append(vfLastReplayDumps, vfDumpHex(srv))
 		}
 		states = append(states, vfServerDigest(srv))
 		if msgs, ok := o.Get(robust.Id{Id: t.e.idx}); ok {
-			outs = append(outs, vfBatchDigest(msgs))
+			if vfFullDumps {
+				vfLastReplayOuts[t.e.idx] = hex.EncodeToString([]byte(vfBatchText(msgs, t.e.idx)))
+			}
+			outs = append(outs, vfBatchDigest(msgs, t.e.idx))
 		} else {
 			outs = append(outs, "-")
 		}
@@ -793,6 +826,17 @@ func vfRunCase(line string, base string, n int) (res string) {
 		return "fsm " + id + " | mkdir-error"
 	}
 	defer os.RemoveAll(dir)
+	// monitor side FIRST: plain replay of the whole log, no FSM bookkeeping involved (it also yields the
+	// alive-after-entry sets the recipient projection refers to)
+	var toks []vfTok
+	for _, e := range entries {
+		toks = append(toks, vfTok{e, false})
+	}
+	vfAliveAfter = map[uint64]map[uint64]bool{}
+	vfRecordAlive = true
+	states, outs, _, perr := vfReplay(dir, toks)
+	vfRecordAlive = false
+	plainDumps, plainOuts := vfLastReplayDumps, vfLastReplayOuts
 	w, err := vfNewWorld(dir, useProto, fileSink, entries)
 	if err != nil {
 		return "fsm " + id + " | boot-error"
@@ -832,13 +876,7 @@ func vfRunCase(line string, base string, n int) (res string) {
 		}
 		out = append(out, rec+" "+w.dump())
 	}
-	// monitor side: plain replay of the whole log, no FSM bookkeeping involved
-	var toks []vfTok
-	for _, e := range entries {
-		toks = append(toks, vfTok{e, false})
-	}
-	states, outs, _, err := vfReplay(dir, toks)
-	if err != nil {
+	if perr != nil {
 		out = append(out, "plain:err")
 	} else {
 		var pl []string
@@ -850,12 +888,19 @@ func vfRunCase(line string, base string, n int) (res string) {
 			pl = append(pl, fmt.Sprintf("%d=%s=%s", e.idx, states[k], outs[k]))
 		}
 		out = append(out, "plain "+vfList(pl))
-		if vfFullDumps && len(vfLastReplayDumps) == len(entries)+1 {
-			pd := []string{"0=" + vfLastReplayDumps[0]}
+		if vfFullDumps && len(plainDumps) == len(entries)+1 {
+			pd := []string{"0=" + plainDumps[0]}
 			for k, e := range entries {
-				pd = append(pd, fmt.Sprintf("%d=%s", e.idx, vfLastReplayDumps[k+1]))
+				pd = append(pd, fmt.Sprintf("%d=%s", e.idx, plainDumps[k+1]))
 			}
 			out = append(out, "pdumps "+vfList(pd))
+			var po []string
+			for _, e := range entries {
+				if h, ok := plainOuts[e.idx]; ok {
+					po = append(po, fmt.Sprintf("%d=%s", e.idx, h))
+				}
+			}
+			out = append(out, "pouts "+vfList(po))
 		}
 	}
 	if len(queries) > 0 {
